@@ -186,10 +186,14 @@ impl TransportConstraint {
         let departure = prev.schedule.departure;
 
         if actor.detail.time.end < prev.place.time.start
-            || actor.detail.time.end < target.place.time.start
             || next.is_some_and(|next| actor.detail.time.end < next.place.time.start)
         {
             return ConstraintViolation::fail(self.time_window_code);
+        }
+
+        // NOTE: only this place/time window of the target is unusable, the job can have others
+        if actor.detail.time.end < target.place.time.start {
+            return ConstraintViolation::skip(self.time_window_code);
         }
 
         let (next_act_location, latest_arr_time_at_next) = if let Some(next) = next {
